@@ -97,6 +97,8 @@ struct Kernel {
     wake_log: Arc<Mutex<Vec<u64>>>,
     /// harness-side shadow of the timers: id -> wake time (oracle only)
     timers: BTreeMap<u64, u64>,
+    /// the BUGGIFY layer (ops `F…`, harness/src/c20_bug.rs)
+    bug: crate::c20_bug::BugState,
 }
 
 fn csv(v: &[u64]) -> String {
@@ -117,6 +119,7 @@ impl Kernel {
             ctx: Arc::new(SimulationContext::new(0, FaultConfig::disabled())),
             wake_log: Arc::new(Mutex::new(Vec::new())),
             timers: BTreeMap::new(),
+            bug: crate::c20_bug::BugState::new(),
         }
     }
 
@@ -321,7 +324,10 @@ impl Kernel {
                 let off = ClockOffset { fixed_offset_ms: i(1), drift_ppm: i(2), drift_anchor: Timestamp::from_millis(i(3) as u64) };
                 off.apply(Timestamp::from_millis(i(4) as u64)).as_millis().to_string()
             }
-            _ => "bad-op".into(),
+            _ => {
+                let rng = match &mut self.rng { AnyRng::Sim(r) => Some(r), AnyRng::Det(_) => None };
+                self.bug.exec(&t, rng, complaints).unwrap_or_else(|| "bad-op".into())
+            }
         }
     }
 }
@@ -434,6 +440,11 @@ fn gen_script(r: &mut Rng, flavour: u64) -> Vec<String> {
                 s.push("TBY 10".into());
             }
         }
+        // the BUGGIFY layer: FaultConfig, the thread-local context, decisions, macros
+        7 => {
+            let seed = seed_value(r);
+            s = crate::c20_bug::gen_script(r, seed);
+        }
         // ClockOffset::apply
         _ => {
             for _ in 0..(3 + r.below(6)) {
@@ -507,7 +518,7 @@ fn part_a(a: &Args, out: &mut Out, budget_ops: usize) {
     while out.n_ops() < budget_ops {
         let script = if (n_scripts as usize) < corpus.len() { corpus[n_scripts as usize].clone() } else {
             flavour_cycle += 1;
-            gen_script(&mut r, flavour_cycle % 7)
+            gen_script(&mut r, flavour_cycle % 8)
         };
         n_scripts += 1;
         let mut complaints = Vec::new();
@@ -541,6 +552,8 @@ fn part_a(a: &Args, out: &mut Out, budget_ops: usize) {
         }
     }
     out.extra.insert("kernel_scripts".into(), json!(n_scripts));
+    let (new_ids, gone) = crate::c20_bug::catalogue_drift();
+    out.extra.insert("fault_catalogue".into(), json!({"ids_in_repo_not_in_model(consulted by nobody the model knows; regenerate with tools/gen_c20_faults.py)": new_ids, "ids_in_model_not_in_repo": gone}));
 }
 
 // ------------------------------------------------------------------------------------------
@@ -679,9 +692,8 @@ mod real {
     };
     use redis_sim::simulator::dst::{DSTConfig, DSTSimulation};
     use redis_sim::simulator::dst_integration::RedisDSTSimulation;
-    use redis_sim::simulator::partition_tests::{run_partition_test, run_partition_test_batch, PartitionConfig};
     use redis_sim::simulator::{
-        check_single_key_linearizability, CrashReason, HostId, MultiNodeSimulation, NodeState, PipelineSimulator,
+        CrashReason, HostId, NodeState, PipelineSimulator,
         ScenarioBuilder,
     };
     use redis_sim::streaming::compaction_dst::{CompactionDSTConfig, CompactionDSTHarness};
@@ -1182,8 +1194,8 @@ mod real {
         tokio::runtime::Builder::new_current_thread().enable_time().start_paused(true).build().expect("runtime")
     }
 
-    pub fn streaming(preset: &str, seed: u64, ops: usize, lines: &mut Vec<String>) -> bool {
-        let cfg = match preset {
+    pub fn streaming_config(preset: &str, seed: u64) -> Option<StreamingDSTConfig> {
+        Some(match preset {
             "default" => StreamingDSTConfig::new(seed),
             "calm" => StreamingDSTConfig::calm(seed),
             "moderate" => StreamingDSTConfig::moderate(seed),
@@ -1199,11 +1211,22 @@ mod real {
                 c.crash_probability = *r.pick(&[0.0, 0.02, 0.3]);
                 c
             }
-            _ => return false,
-        };
+            _ => return None,
+        })
+    }
+
+    /// `parts` = 1: `run(ops)` as one call; otherwise the run is cut into `parts` consecutive `run` calls and,
+    /// when `stall_ms > 0`, REAL time (the wall clock — the simulation is not told) passes between them
+    pub fn streaming_parts(preset: &str, seed: u64, ops: usize, parts: usize, stall_ms: u64, lines: &mut Vec<String>) -> bool {
+        let cfg = match streaming_config(preset, seed) { Some(c) => c, None => return false };
         paused_runtime().block_on(async {
             let mut h = StreamingDSTHarness::new(cfg).await;
-            h.run(ops).await;
+            for (i, n) in split_ops(ops, parts).into_iter().enumerate() {
+                if i > 0 && stall_ms > 0 {
+                    std::thread::sleep(std::time::Duration::from_millis(stall_ms));
+                }
+                h.run(n).await;
+            }
             h.check_invariants().await;
             let r = h.result();
             for op in &r.history {
@@ -1215,8 +1238,17 @@ mod real {
         true
     }
 
-    pub fn compaction(preset: &str, seed: u64, ops: usize, lines: &mut Vec<String>) -> bool {
-        let cfg = match preset {
+    pub fn streaming(preset: &str, seed: u64, ops: usize, lines: &mut Vec<String>) -> bool {
+        streaming_parts(preset, seed, ops, 1, 0, lines)
+    }
+
+    fn split_ops(ops: usize, parts: usize) -> Vec<usize> {
+        let parts = parts.max(1);
+        (0..parts).map(|i| ops * (i + 1) / parts - ops * i / parts).collect()
+    }
+
+    pub fn compaction_config(preset: &str, seed: u64) -> Option<CompactionDSTConfig> {
+        Some(match preset {
             "default" => CompactionDSTConfig::new(seed),
             "calm" => CompactionDSTConfig::calm(seed),
             "aggressive" => CompactionDSTConfig::aggressive(seed),
@@ -1234,11 +1266,20 @@ mod real {
                 c.compact_probability = *r.pick(&[0.05, 0.3, 0.4]);
                 c
             }
-            _ => return false,
-        };
+            _ => return None,
+        })
+    }
+
+    pub fn compaction_parts(preset: &str, seed: u64, ops: usize, parts: usize, stall_ms: u64, lines: &mut Vec<String>) -> bool {
+        let cfg = match compaction_config(preset, seed) { Some(c) => c, None => return false };
         paused_runtime().block_on(async {
             let mut h = CompactionDSTHarness::new(cfg).await;
-            h.run(ops).await;
+            for (i, n) in split_ops(ops, parts).into_iter().enumerate() {
+                if i > 0 && stall_ms > 0 {
+                    std::thread::sleep(std::time::Duration::from_millis(stall_ms));
+                }
+                h.run(n).await;
+            }
             h.check_invariants().await;
             let r = h.result().clone();
             for op in &r.history {
@@ -1251,285 +1292,36 @@ mod real {
         true
     }
 
-    /// a scripted multi-node scenario derived from the seed (the script generator is the
-    /// harness's own SplitMix, i.e. part of the configuration)
-    pub fn multi_node(preset: &str, seed: u64, ops: usize, lines: &mut Vec<String>) -> bool {
-        let mut r = Rng::new(seed ^ 0xC20);
-        let n = 3 + (seed % 3) as usize;
-        let mut sim = match preset {
-            "broadcast" => MultiNodeSimulation::new(n, seed),
-            "lossy" => MultiNodeSimulation::new(n, seed).with_packet_loss(0.2).with_message_delay(1, 40),
-            "no-anti-entropy" => MultiNodeSimulation::new_without_anti_entropy(n, seed).with_packet_loss(0.1),
-            "partitioned" => MultiNodeSimulation::new_partitioned(n + 1, 2, seed).with_packet_loss(0.1),
-            _ => return false,
-        };
-        let n = sim.nodes.len();
-        let keys: Vec<String> = (0..6).map(|i| format!("k{}", i)).collect();
-        for k in 1..=ops {
-            let what = r.below(100);
-            let line = if what < 40 {
-                let node = r.below(n as u64) as usize;
-                let key = r.pick(&keys).clone();
-                let v = format!("v{}", k);
-                let resp = sim.execute(k % 3, node, Command::set(key.clone(), SDS::from_str(&v)));
-                format!("set n{} {} {} -> {:?}", node, key, v, resp)
-            } else if what < 55 {
-                let node = r.below(n as u64) as usize;
-                let key = r.pick(&keys).clone();
-                let resp = sim.execute(k % 3, node, Command::Get(key.clone()));
-                format!("get n{} {} -> {:?}", node, key, resp)
-            } else if what < 60 {
-                let node = r.below(n as u64) as usize;
-                let key = r.pick(&keys).clone();
-                let resp = sim.execute(k % 3, node, Command::Del(vec![key.clone()]));
-                format!("del n{} {} -> {:?}", node, key, resp)
-            } else if what < 80 {
-                sim.advance_time_ms(1 + r.below(15));
-                sim.gossip_round();
-                format!("gossip queue={}", sim.message_queue.len())
-            } else if what < 88 {
-                let (a, b) = (r.below(n as u64) as usize, r.below(n as u64) as usize);
-                if a != b { sim.partition(a, b); }
-                format!("partition {} {}", a, b)
-            } else if what < 96 {
-                let (a, b) = (r.below(n as u64) as usize, r.below(n as u64) as usize);
-                if a != b { sim.heal_partition(a, b); }
-                format!("heal {} {}", a, b)
-            } else {
-                sim.run_full_anti_entropy();
-                "full-anti-entropy".to_string()
-            };
-            let clocks: Vec<String> = sim.nodes.iter().map(|nd| nd.replica_state.lamport_clock.time.to_string()).collect();
-            lines.push(format!("{} {} clocks={}", k, line, clocks.join(",")));
-        }
-        for a in 0..n {
-            for b in (a + 1)..n {
-                sim.heal_partition(a, b);
-            }
-        }
-        let conv = sim.converge(30);
-        for key in &keys {
-            lines.push(format!("final {} values={:?} converged={} lin={}", key, sim.get_all_values(key), sim.check_key_convergence(key),
-                check_single_key_linearizability(&sim.history, key).is_linearizable));
-        }
-        let clocks: Vec<String> = sim.nodes.iter().map(|nd| nd.replica_state.lamport_clock.time.to_string()).collect();
-        lines.push(format!("result converge={} history={} clocks={}", conv, sim.history.len(), clocks.join(",")));
-        true
+    pub fn compaction(preset: &str, seed: u64, ops: usize, lines: &mut Vec<String>) -> bool {
+        compaction_parts(preset, seed, ops, 1, 0, lines)
     }
 
-    pub const BURSTS: [u64; 8] = [1, 10, 99, 100, 101, 130, 500, 1100];
-
-    fn mn_fingerprint(sim: &MultiNodeSimulation, lines: &mut Vec<String>, what: &str) {
-        let clocks: Vec<String> = sim.nodes.iter().map(|nd| nd.replica_state.lamport_clock.time.to_string()).collect();
-        let pend: Vec<String> = sim.nodes.iter().map(|nd| nd.replica_state.pending_deltas.len().to_string()).collect();
-        lines.push(format!("{} clocks={} pending={} queue={}", what, clocks.join(","), pend.join(","), sim.message_queue.len()));
-    }
-
-    fn mn_messages(sim: &MultiNodeSimulation, lines: &mut Vec<String>) {
-        for m in &sim.message_queue {
-            let keys: Vec<String> = m.deltas.iter().map(|d| format!("{}@{}", d.key, d.value.timestamp.time)).collect();
-            lines.push(format!("  in-flight {}->{} at {}: {}", m.from, m.to, m.delivery_time.as_millis(), keys.join(",")));
-        }
-    }
-
-    /// how many keys of the pool differ (stamp) between two nodes: the size of the next sync
-    fn mn_divergent(sim: &MultiNodeSimulation, keys: &[String], a: usize, b: usize) -> usize {
-        keys.iter().filter(|k| {
-            let x = sim.nodes[a].replica_state.get_replicated(k).map(|v| (v.timestamp.time, v.timestamp.replica_id.0));
-            let y = sim.nodes[b].replica_state.get_replicated(k).map(|v| (v.timestamp.time, v.timestamp.replica_id.0));
-            x != y
-        }).count()
-    }
-
-    fn mn_div_class(d: usize) -> &'static str {
-        if d > 1000 { ">1000(limit)" } else if d > 100 { "101-1000" } else if d > 1 { "2-100" } else { "0-1" }
-    }
-
-    fn mn_final(sim: &mut MultiNodeSimulation, keys: &[String], lines: &mut Vec<String>) {
-        let n = sim.nodes.len();
-        for a in 0..n {
-            for b in (a + 1)..n {
-                sim.heal_partition(a, b);
-            }
-        }
-        let conv = sim.converge(20);
-        for (i, key) in keys.iter().enumerate() {
-            let per: Vec<String> = sim.nodes.iter().map(|nd| match nd.replica_state.get_replicated(key) {
-                Some(rv) => format!("{:?}@{}.{}{}", nd.get_replicated_value(key), rv.timestamp.time, rv.timestamp.replica_id.0, if rv.is_tombstone() { "T" } else { "" }),
-                None => "-".to_string(),
-            }).collect();
-            if per.iter().any(|x| x != "-") {
-                let lin = if i < 8 { format!(" lin={}", check_single_key_linearizability(&sim.history, key).is_linearizable) } else { String::new() };
-                lines.push(format!("final {} {} conv={}{}", key, per.join(" | "), sim.check_key_convergence(key), lin));
-            }
-        }
-        mn_fingerprint(sim, lines, &format!("result converge={} history={}", conv, sim.history.len()));
-    }
-
-    /// GENERATED multi-node scenarios: the public API driven by a scenario that is a function of
-    /// the seed — write bursts on one node between two gossip rounds with lengths around the
-    /// pending-delta limit (100) and the anti-entropy limit (1000 keys per sync), key pools of
-    /// 1 / 60 / 150 / 1300 keys, 2–5 nodes, broadcast or selective routing, partitions, every
-    /// anti-entropy entry point, converge.  Full fingerprint: replies, in-flight messages with
-    /// the order of their deltas, Lamport clocks, pending queue lengths, per-key winners with
-    /// stamps on every node, verdicts.  `raw` gets `shape …` lines (the scenario's shape).
-    pub fn multi_node_gen(preset: &str, seed: u64, steps: usize, lines: &mut Vec<String>, raw: &mut Vec<String>) -> bool {
-        if preset == "corpus-backlog130" {
-            return multi_node_corpus_backlog(seed, lines, raw);
-        }
-        if preset == "corpus-sync1100" {
-            // more divergent keys than max_keys_per_sync (1000) at one anti-entropy exchange
-            let mut sim = MultiNodeSimulation::new(3, seed);
-            let keys: Vec<String> = (0..1100).map(|i| format!("k{:04}", (i * 7919) % 1100)).collect();
-            sim.partition(0, 1);
-            sim.partition(0, 2);
-            for (i, k) in keys.iter().enumerate() {
-                sim.execute(0, 0, Command::set(k.clone(), SDS::from_str(&format!("v{}", i))));
-            }
-            raw.push("shape burst=1100".into());
-            raw.push(format!("shape sync-divergent-keys={}", mn_div_class(mn_divergent(&sim, &keys, 0, 1))));
-            mn_fingerprint(&sim, lines, "isolated-writes");
-            sim.heal_partition(0, 1);
-            mn_fingerprint(&sim, lines, "heal 0 1");
-            sim.run_anti_entropy_sync(0, 2);
-            mn_fingerprint(&sim, lines, "sync 0 2");
-            let mut sorted = keys.clone();
-            sorted.sort();
-            let have: Vec<usize> = (0..3).map(|n| sorted.iter().filter(|k| sim.nodes[n].replica_state.get_replicated(k).is_some()).count()).collect();
-            lines.push(format!("keys-present {:?}", have));
-            // which keys crossed in the limited exchange
-            let got: Vec<&String> = sorted.iter().filter(|k| sim.nodes[1].replica_state.get_replicated(k).is_some()).collect();
-            lines.push(format!("node1 first={:?} last={:?}", got.first(), got.last()));
-            mn_final(&mut sim, &sorted, lines);
-            return true;
-        }
-        let mut r = Rng::new(seed ^ 0x6E4);
-        let n = 2 + r.below(4) as usize;
-        let loss = *r.pick(&[0.0, 0.0, 0.1, 0.3]);
-        let mut sim = match preset {
-            "gen-broadcast" => MultiNodeSimulation::new(n, seed).with_packet_loss(loss),
-            "gen-no-auto-ae" => MultiNodeSimulation::new_without_anti_entropy(n, seed).with_packet_loss(loss),
-            "gen-partitioned" => MultiNodeSimulation::new_partitioned(n.max(3), 2, seed).with_packet_loss(loss),
-            _ => return false,
-        };
-        let n = sim.nodes.len();
-        let big = r.chance(1, 6);
-        let pool: u64 = if big { 1300 } else { *r.pick(&[1u64, 60, 150]) };
-        let keys: Vec<String> = (0..pool).map(|i| format!("k{:04}", i)).collect();
-        let mut counter = 0u64;
-        let mut overflowed = vec![0u64; n];
-        let mut hwm = vec![0usize; n];
-        raw.push(format!("shape nodes={} pool={} mode={} loss={}", n, pool, preset, loss));
-        for k in 1..=steps {
-            let what = r.below(100);
-            if what < 45 {
-                let node = r.below(n as u64) as usize;
-                let len = if big && r.chance(1, 2) { 1100 } else { *r.pick(&BURSTS[..7]) };
-                let spread = if r.chance(1, 3) { pool } else { pool.min(1 + r.below(pool)) };
-                let base = r.below(pool);
-                let mut replies = 0u64;
-                for _ in 0..len {
-                    let key = keys[((base + r.below(spread)) % pool) as usize].clone();
-                    counter += 1;
-                    if sim.nodes[node].replica_state.pending_deltas.len() >= 100 {
-                        overflowed[node] += 1;
-                    }
-                    let cmd = if r.chance(1, 20) { Command::Del(vec![key]) } else { Command::set(key, SDS::from_str(&format!("v{}", counter))) };
-                    let resp = sim.execute(k % 3, node, cmd);
-                    replies = replies.wrapping_mul(31).wrapping_add(format!("{:?}", resp).len() as u64);
-                    hwm[node] = hwm[node].max(sim.nodes[node].replica_state.pending_deltas.len());
+    /// how long a wall-clock stall has to be to cross the smallest wall-clock-typed time constant of the
+    /// configuration (comparison at equality, computed from the configuration): just above the tombstone TTL
+    /// of the compaction configuration when that is short, 120 ms otherwise
+    pub fn stall_ms(harness: &str, preset: &str, seed: u64) -> u64 {
+        if harness == "compaction" {
+            if let Some(c) = compaction_config(preset, seed) {
+                let ttl = c.compaction_config.tombstone_ttl.as_millis() as u64;
+                if ttl <= 400 {
+                    return ttl + 60;
                 }
-                raw.push(format!("shape burst={}", len));
-                mn_fingerprint(&sim, lines, &format!("{} burst n{} len={} replies={}", k, node, len, replies));
-            } else if what < 70 {
-                sim.advance_time_ms(1 + r.below(15));
-                sim.gossip_round();
-                mn_fingerprint(&sim, lines, &format!("{} gossip", k));
-                mn_messages(&sim, lines);
-            } else if what < 78 {
-                let (a, b) = (r.below(n as u64) as usize, r.below(n as u64) as usize);
-                if a != b { sim.partition(a, b); }
-                mn_fingerprint(&sim, lines, &format!("{} partition {} {}", k, a, b));
-            } else if what < 86 {
-                let (a, b) = (r.below(n as u64) as usize, r.below(n as u64) as usize);
-                if a != b {
-                    raw.push(format!("shape sync-divergent-keys={}", mn_div_class(mn_divergent(&sim, &keys, a, b))));
-                    sim.heal_partition(a, b);
-                }
-                mn_fingerprint(&sim, lines, &format!("{} heal {} {}", k, a, b));
-            } else if what < 92 {
-                let (a, b) = (r.below(n as u64) as usize, r.below(n as u64) as usize);
-                if a != b {
-                    raw.push(format!("shape sync-divergent-keys={}", mn_div_class(mn_divergent(&sim, &keys, a, b))));
-                    sim.run_anti_entropy_sync(a, b);
-                }
-                mn_fingerprint(&sim, lines, &format!("{} anti-entropy-sync {} {}", k, a, b));
-            } else if what < 96 {
-                raw.push(format!("shape sync-divergent-keys={}", mn_div_class(mn_divergent(&sim, &keys, 0, 1))));
-                sim.run_full_anti_entropy();
-                mn_fingerprint(&sim, lines, &format!("{} full-anti-entropy", k));
-            } else {
-                let c = sim.converge(1 + r.below(5) as usize);
-                mn_fingerprint(&sim, lines, &format!("{} converge {}", k, c));
             }
         }
-        for i in 0..n {
-            raw.push(format!("shape pending-hwm={} overflow={}", if hwm[i] >= 100 { "100(cap)" } else if hwm[i] >= 50 { "50-99" } else { "<50" }, if overflowed[i] > 0 { ">0" } else { "0" }));
-        }
-        mn_final(&mut sim, &keys, lines);
-        true
+        120
     }
 
-    /// corpus case (round-4 seed "pending deltas coalesced through a HashMap"): one node takes 130
-    /// writes over 60 keys with no gossip round in between, the backlog is gossiped, then two
-    /// nodes write the same keys concurrently
-    fn multi_node_corpus_backlog(seed: u64, lines: &mut Vec<String>, raw: &mut Vec<String>) -> bool {
-        let mut sim = MultiNodeSimulation::new(3, seed);
-        for i in 0..130u64 {
-            sim.execute(0, 0, Command::set(format!("k{:02}", i % 60), SDS::from_str(&format!("v{}", i))));
-        }
-        raw.push("shape burst=130".into());
-        raw.push("shape pending-hwm=100(cap) overflow=>0".into());
-        mn_fingerprint(&sim, lines, "backlog");
-        for round in 0..4 {
-            sim.advance_time_ms(10);
-            sim.gossip_round();
-            mn_fingerprint(&sim, lines, &format!("gossip {}", round));
-            mn_messages(&sim, lines);
-        }
-        for j in 0..33u64 {
-            sim.execute(1, 0, Command::set(format!("warm-a{:02}", j), SDS::from_str("x")));
-            sim.execute(1, 0, Command::set(format!("warm-b{:02}", j), SDS::from_str("x")));
-            sim.execute(1, 0, Command::set(format!("c{:02}", j), SDS::from_str("from-node-0")));
-            sim.execute(2, 1, Command::set(format!("c{:02}", j), SDS::from_str("from-node-1")));
-        }
-        mn_fingerprint(&sim, lines, "conflict-writes");
-        let mut keys: Vec<String> = (0..60).map(|i| format!("k{:02}", i)).collect();
-        keys.extend((0..33).map(|j| format!("c{:02}", j)));
-        mn_final(&mut sim, &keys, lines);
-        true
-    }
-
-    pub fn partition(preset: &str, seed: u64, lines: &mut Vec<String>) -> bool {
-        let n = 5usize;
-        let cfg = match preset {
-            "isolate" => PartitionConfig::isolate_node(0, n),
-            "split_brain" => PartitionConfig::split_brain(vec![0, 1], vec![2, 3, 4]),
-            "asymmetric" => PartitionConfig::asymmetric(0, 4),
-            "ring" => PartitionConfig::ring(n),
-            _ => return false,
+    /// the store-based harnesses under a wall-clock stall: (trace of the run cut into three `run` calls,
+    /// trace of the same with real time passing between the calls)
+    pub fn stalled_pair(harness: &str, preset: &str, seed: u64, ops: usize) -> Option<(Vec<String>, Vec<String>, u64)> {
+        let ms = stall_ms(harness, preset, seed);
+        let (mut a, mut b) = (Vec::new(), Vec::new());
+        let ok = match harness {
+            "compaction" => compaction_parts(preset, seed, ops, 3, 0, &mut a) && compaction_parts(preset, seed, ops, 3, ms, &mut b),
+            "streaming" => streaming_parts(preset, seed, ops, 3, 0, &mut a) && streaming_parts(preset, seed, ops, 3, ms, &mut b),
+            _ => false,
         };
-        // two keys written on both sides: more than one key diverges before the heal
-        let r = run_partition_test(preset, n, seed, cfg,
-            vec![(0, "key1", "a0"), (n - 1, "key1", "a4"), (1, "key2", "b1"), (n - 1, "key2", "b4"), (0, "key3", "c0"), (3, "key3", "c3")],
-            vec![(0, "key1", "final"), (2, "key2", "final2")], 50);
-        lines.push(format!("{:?}", r));
-        fn iso(n: usize) -> PartitionConfig { PartitionConfig::isolate_node(0, n) }
-        if preset == "isolate" {
-            let b = run_partition_test_batch("batch", n, iso, 3 + (seed % 3) as usize);
-            lines.push(format!("{:?}", b));
-        }
-        true
+        if ok { Some((a, b, ms)) } else { None }
     }
 
     pub fn pipeline(seed: u64, lines: &mut Vec<String>) -> bool {
@@ -1617,9 +1409,9 @@ fn harness_trace_inner(harness: &str, preset: &str, seed: u64, ops: usize) -> Op
             "wal" => real::wal(preset, seed, &mut t.lines),
             "streaming" => real::streaming(preset, seed, ops, &mut t.lines),
             "compaction" => real::compaction(preset, seed, ops, &mut t.lines),
-            "multi-node" => real::multi_node(preset, seed, ops, &mut t.lines),
-            "multi-node-gen" => real::multi_node_gen(preset, seed, ops, &mut t.lines, &mut t.raw),
-            "partition" => real::partition(preset, seed, &mut t.lines),
+            "multi-node" => crate::c20_mn::multi_node(preset, seed, ops, &mut t.lines, &mut t.raw),
+            "multi-node-gen" => crate::c20_mn::multi_node_gen(preset, seed, ops, &mut t.lines, &mut t.raw),
+            "partition" => crate::c20_mn::partition(preset, seed, &mut t.lines, &mut t.raw),
             "connection" => real::pipeline(seed, &mut t.lines),
             "scenario" => real::scenario(preset, seed, ops, &mut t.lines),
             "batch" => crate::c20_more::batch(preset, seed, ops, &mut t.lines, &mut t.raw),
@@ -1800,6 +1592,9 @@ fn cfg_numbers(harness: &str, preset: &str, seed: u64, ops: usize) -> Option<Str
         let c = crate::c20_more::compaction_cfg(preset, seed)?;
         return Some(format!("{} {} {}", c.compact_probability.to_bits(), (c.compact_probability + c.flush_probability).to_bits(), c.replica_id));
     }
+    if matches!(harness, "multi-node" | "multi-node-gen" | "partition") {
+        return crate::c20_mn::cfg_numbers(harness, preset, seed, ops);
+    }
     if harness == "dst" {
         let c = real::dst_config(preset, seed)?;
         // the probability `should_buggify` will read: the real FaultConfig::get of this preset
@@ -1890,9 +1685,9 @@ const FAMILIES: &[Family] = &[
     Family { name: "hash", presets: &["default", "small_fields", "high_churn", "gen"], ops: 300, modelled: true, quick_presets: 4 },
     Family { name: "sorted-set", presets: &["default", "small_keyspace", "large_keyspace", "gen"], ops: 300, modelled: true, quick_presets: 4 },
     Family { name: "transaction", presets: &["default", "high_conflict", "error_heavy", "gen"], ops: 200, modelled: true, quick_presets: 4 },
-    Family { name: "multi-node", presets: &["broadcast", "lossy", "partitioned", "no-anti-entropy"], ops: 250, modelled: false, quick_presets: 3 },
-    Family { name: "multi-node-gen", presets: &["corpus-backlog130", "corpus-sync1100", "gen-broadcast", "gen-partitioned", "gen-no-auto-ae"], ops: 18, modelled: false, quick_presets: 5 },
-    Family { name: "partition", presets: &["isolate", "split_brain", "ring", "asymmetric"], ops: 0, modelled: false, quick_presets: 2 },
+    Family { name: "multi-node", presets: &["broadcast", "lossy", "partitioned", "no-anti-entropy"], ops: 250, modelled: true, quick_presets: 3 },
+    Family { name: "multi-node-gen", presets: &["corpus-backlog130", "corpus-sync1100", "gen-broadcast", "gen-partitioned", "gen-no-auto-ae"], ops: 18, modelled: true, quick_presets: 5 },
+    Family { name: "partition", presets: &["isolate", "split_brain", "gen", "ring", "asymmetric"], ops: 0, modelled: true, quick_presets: 3 },
     Family { name: "streaming", presets: &["moderate", "chaos", "gen", "calm", "default"], ops: 150, modelled: false, quick_presets: 3 },
     Family { name: "compaction", presets: &["chaos", "aggressive", "gen", "calm", "default"], ops: 120, modelled: false, quick_presets: 3 },
     Family { name: "wal", presets: &["chaos", "default", "crash_only", "baseline", "chaos_nofsync", "chaos_tiny_files", "gen"], ops: 0, modelled: true, quick_presets: 7 },
@@ -2032,6 +1827,22 @@ fn part_b(a: &Args, out: &mut Out) {
                         &format!("{} {} seed {}: after another built-in harness (DSTSimulation with FaultConfig::disabled()) ran on the same thread the trace differs from a fresh process; first divergence at trace line {}", fam.name, preset, seed, i + 1),
                         json!({"replay": replay, "line": i + 1, "after_other_harness": p3.lines.get(i), "fresh_process": traces[0].lines.get(i)}));
                 }
+                // the WALL CLOCK as a hidden input, varied on purpose: the same run cut into three `run` calls, once
+                // straight and once with real time passing between the calls (longer than the shortest wall-clock
+                // time constant of the configuration) — the simulation is not told, so nothing may change
+                if matches!(fam.name, "streaming" | "compaction") && (seed == fam_seeds[0] || seed == fam_seeds[1]) {
+                    if let Some((straight, stalled, ms)) = catch_unwind(AssertUnwindSafe(|| real::stalled_pair(fam.name, preset, seed, ops))).unwrap_or(None) {
+                        out.count(&format!("wall-clock-stall:{}:{}", fam.name, preset));
+                        if straight != stalled {
+                            let i = first_diff(&straight, &stalled);
+                            all_same = false;
+                            out.violation(&format!("C20:trace-depends-on-wall-clock:{}", fam.name),
+                                &format!("{} {} seed {} ops {}: letting {} ms of REAL time pass between the `run` calls of one simulation changes its trace; first divergence at trace line {}", fam.name, preset, seed, ops, ms, i + 1),
+                                json!({"replay": replay, "how": format!("run({}/3) three times on one harness, std::thread::sleep({} ms) between the calls, compare with the same without the sleeps", ops, ms),
+                                       "stall_ms": ms, "line": i + 1, "straight": straight.get(i), "with_stall": stalled.get(i)}));
+                        }
+                    }
+                }
                 if p1.lines != traces[0].lines && p1.lines == p2.lines {
                     let i = first_diff(&p1.lines, &traces[0].lines);
                     all_same = false;
@@ -2081,6 +1892,17 @@ fn part_b(a: &Args, out: &mut Out) {
                     let cfgn = cfg_numbers(fam.name, preset, seed, ops).expect("cfg numbers");
                     let t = &traces[0];
                     out.op(format!("RUN dst-api sim {} {} {}", seed, ops, cfgn), format!("{} | {}", trace_digest(&t.lines), t.lines.last().cloned().unwrap_or_default()));
+                }
+                if fam.name == "partition" && *preset == "isolate" {
+                    // every element of `run_partition_test_batch` is a single run of seed i: predicted as well
+                    for i in 0..(3 + seed % 3) {
+                        let p = format!("batch-elem{}", i);
+                        let mut t = Trace::default();
+                        if crate::c20_mn::partition(&p, i, &mut t.lines, &mut t.raw) {
+                            let cfgn = cfg_numbers("partition", &p, i, 0).expect("cfg numbers");
+                            out.op(format!("RUN partition {} {} 0 {}", p, i, cfgn), format!("{} | {}", trace_digest(&t.lines), t.lines.last().cloned().unwrap_or_default()));
+                        }
+                    }
                 }
                 if fam.modelled {
                     let cfgn = cfg_numbers(fam.name, preset, seed, ops).expect("cfg numbers");
